@@ -50,11 +50,11 @@ variable {M K R : Type}
 
 /-- `Collection.Add(id, body, opts...)` with `opts` a view into the caller's heap: returns the call's
 result and the heap afterwards. -/
-def Coll.addS (cfg : Cfg M K R) (st : CState M R) (h : Heap (WOpt M K)) (id : String) (msg : M) (opts : Slice) :
+def Coll.addS (cat : K → K → K) (cfg : Cfg M K R) (st : CState M R) (h : Heap (WOpt M K)) (id : String) (msg : M) (opts : Slice) :
     (COut M × CState M R) × Heap (WOpt M K) :=
   let (h1, lit) := literal h [WOpt.expectAbsent, WOpt.createIfAbsent]
   let (h2, all) := goAppend h1 lit (h1.read opts)
-  (Coll.updateO cfg st id msg (h2.read all), h2)
+  (Coll.updateO cat cfg st id msg (h2.read all), h2)
 
 /-! ### lemmas -/
 
